@@ -67,9 +67,17 @@ def gen_rules(rnd, pool, max_rules=5):
     rules = []
     parts = []
     n = rnd.randint(0, max_rules)
+    made = []
     for _ in range(n):
         while rnd.random() < 0.25:
             parts.append(rnd.choice(GARBAGE))
+        if made and rnd.random() < 0.25:
+            # a rule restated verbatim further down the list (defaults and overrides concatenated): its later
+            # position is what counts
+            line, rule = rnd.choice(made)
+            parts.append(line)
+            rules.append(dict(rule))
+            continue
         pat = gen_pattern(rnd, pool)
         typed = rnd.choice(["", "", "debug", "info", "warning", "critical"])
         lhs = pat + ("." + typed if typed else "")
@@ -79,6 +87,7 @@ def gen_rules(rnd, pool, max_rules=5):
         line = rnd.choice(WS) + lhs + rnd.choice(WS) + "=" + rnd.choice(WS) + ("true" if on else "false") + rnd.choice(WS)
         parts.append(line)
         rules.append({"pat": units(p2), "typed": t2, "on": on})
+        made.append((line, rules[-1]))
     while rnd.random() < 0.25:
         parts.append(rnd.choice(GARBAGE))
     text = ""
